@@ -33,12 +33,12 @@ use std::time::Duration;
 pub const DEF: PropDef = PropDef {
     id: "C18",
     level: "exploration",
-    rule: "cases = (positive program of <=2 rules from a 24-rule core: 1-2 premises, constants, repeated variables, variable predicates, two conclusions, non-recursive / linear / doubly / mutually recursive) x (every fact set of <=3 (quick) / <=4 (thorough) triples of a 10-triple universe, plus p-chains of 5/6/8 edges for deep derivations) x (every goal shape over {constants, variable slots} incl. repeated variable and variable predicate) x (every injective naming of the slots from {X,Y,x,v0,v1,v2}); each goal is run through Reasoner::backward_chaining and read back with resolve_term on the goal's terms; oracle = naive least model with stages: every answer is a ground model fact, every matching model fact of stage<=5 is answered, the answer set is the same for every naming of one shape. Goal shapes whose predicted SLD cost exceeds the step cap are skipped (counted, never judged). evaluations = goals executed; non-trivial = (program, fact set) pair whose least model contains a derived fact that some executed goal must return; distinct = distinct such pairs; outcomes = distinct answer sets",
+    rule: "cases = (positive program of <=2 rules from a 24-rule core: 1-2 premises, constants, repeated variables, variable predicates, two conclusions, non-recursive / linear / doubly / mutually recursive) x (fact set of <=4 triples of a 10-triple universe, plus p-chains of 5/6/8 edges for deep derivations) x (every goal shape over {constants a,c,p,q; variable slots} incl. repeated variable, variable predicate and ground goals: 37 shapes) x (namings of the slots from {x,X,Y,v0,v1,v2}). quick: 24 single rules + 42 ordered pairs of a 7-rule sub-core, each with every fact set of <=2 triples + 14 curated sets of 3-4, namings with the plain names in fixed order (4/13/34 per 1/2/3 slots, 235 goals per batch). thorough: single rules x every fact set of <=4 and the 30 ordered pairs of a 6-rule sub-core x every fact set of <=3 (+curated 4-sets), both with every injective naming (6/30/120, 512 goals per batch); the other 522 ordered pairs x fact sets of <=2 (+curated) with the fixed-plain-order namings. Each goal is run through Reasoner::backward_chaining and read back with resolve_term on the goal's terms; oracle = naive least model with stages: every answer is a ground model fact, every matching model fact of stage<=5 is answered, the answer set is the same for every naming of one shape. Goal shapes whose predicted SLD cost exceeds the step cap are skipped (counted under skipped_*, never judged). evaluations = goals executed; non-trivial = (program, fact set) pair for which some executed goal must return a derived fact; distinct = distinct such pairs; outcomes = distinct answer sets",
     assumptions: &[
-        "universe: individuals a,b,c,d (chains: c0..c8), predicates p,q; goal constants {a,c} x {p,q} quick, {a,b,c} x {p,q} thorough; goal variable names {X,Y,x,v0,v1,v2}",
+        "universe: individuals a,b,c,d (chains: c0..c8), predicates p,q; goal constants {a,c} and {p,q} (chains: c0,c2 / c3,c5); goal variable names {x,X,Y,v0,v1,v2} (x is also a variable name used inside the rules)",
         "only safe positive rules without filters are generated (the property quantifies over safe rule sets)",
         "completeness is demanded for stage<=5 only (engine bound: depth<=MAX_DEPTH=10 with depth = rule nesting of the goal)",
-        "reference model: reference/datalog_pos.rs (self-tested); cost model SldCost only decides skipping, never a verdict",
+        "reference model: reference/datalog_pos.rs (self-tested); cost model SldCost (names-apart copy of the search, step cap 600 quick / 800 thorough) only decides skipping, never a verdict; the subject is about 2 us per predicted step and its cost is doubly exponential in the depth bound for left/doubly recursive programs",
         "answers are compared as sets of ground triples (the engine returns duplicates and internal variables by design)",
     ],
     run,
